@@ -505,6 +505,14 @@ func downloadImpl(ctx context.Context, name, sha3_384, downloadURL string, user 
 			if _, err := w.Seek(0, io.SeekStart); err != nil {
 				return err
 			}
+			// drop what previous attempts left behind, otherwise a stale
+			// tail longer than the full body would survive the rewrite
+			// while the hash only covers the new body
+			if t, ok := w.(interface{ Truncate(size int64) error }); ok {
+				if err := t.Truncate(0); err != nil {
+					return err
+				}
+			}
 			h = crypto.SHA3_384.New()
 			resume = 0
 		}
